@@ -500,6 +500,10 @@ func init() {
 					}
 					cfg.Sched = "free"
 				case "barrier":
+					if r.Intn(3) == 0 {
+						old := runtime.GOMAXPROCS(2) // fewer processors than workers
+						defer runtime.GOMAXPROCS(old)
+					}
 					cfg.W = 1 + r.Intn(16)
 					cfg.S = 1 + r.Intn(2)
 					cfg.Per = (cfg.W+cfg.S-1)/cfg.S + r.Intn(4)
